@@ -317,8 +317,8 @@ pub fn explore(p: &dyn Program, depth: usize, max_wall_s: u64) -> Value {
 }
 
 pub fn run(tier: &str) -> String {
-    let depth = if tier == "thorough" { 8 } else { 5 };
-    let wall = if tier == "thorough" { 1500 } else { 40 };
+    let depth = if tier == "thorough" { 7 } else { 5 };
+    let wall = if tier == "thorough" { 900 } else { 40 };
     let progs: Vec<Box<dyn Program>> = crate::history_progs::all(tier);
     let mut out = vec![];
     for p in &progs {
